@@ -11,8 +11,28 @@ import (
 	"github.com/thanos-community/promql-engine/api"
 )
 
+// DuplicateCheck says how a Coalesce treats series with equal labels coming
+// from different expressions.
+type DuplicateCheck int
+
+const (
+	// DuplicatesAllowed is for the partial results of an aggregation, which
+	// overlap by design.
+	DuplicatesAllowed DuplicateCheck = iota
+	// DuplicatesPerStep fails a step at which two such series have a sample.
+	DuplicatesPerStep
+	// DuplicatesAcrossSteps fails as soon as two such series have produced
+	// samples at all, as the Prometheus engine does for functions over range
+	// vectors.
+	DuplicatesAcrossSteps
+)
+
 type Coalesce struct {
 	Expressions parser.Expressions
+	// Duplicates is not DuplicatesAllowed when the expressions are the whole
+	// of an expression evaluated per partition: over the union of the
+	// partitions two series with the same labels would fail the query.
+	Duplicates DuplicateCheck
 }
 
 func (r Coalesce) String() string {
@@ -86,7 +106,7 @@ func (m DistributedExecutionOptimizer) Optimize(plan parser.Expr) parser.Expr {
 			if aggr.Op == parser.COUNT {
 				localAggregation = parser.SUM
 			}
-			subQueries := m.makeSubQueries(current, engines)
+			subQueries := m.makeSubQueries(current, engines, DuplicatesAllowed)
 			*current = &parser.AggregateExpr{
 				Op:       localAggregation,
 				Expr:     subQueries,
@@ -103,16 +123,37 @@ func (m DistributedExecutionOptimizer) Optimize(plan parser.Expr) parser.Expr {
 			return false
 		}
 
-		*current = m.makeSubQueries(current, engines)
+		*current = m.makeSubQueries(current, engines, duplicateCheckFor(*current))
 		return true
 	})
 
 	return plan
 }
 
-func (m DistributedExecutionOptimizer) makeSubQueries(current *parser.Expr, engines []api.RemoteEngine) Coalesce {
+// duplicateCheckFor returns the check the central engine would have applied to
+// the expression had it evaluated it over all series itself.
+func duplicateCheckFor(expr parser.Expr) DuplicateCheck {
+	for {
+		paren, ok := expr.(*parser.ParenExpr)
+		if !ok {
+			break
+		}
+		expr = paren.Expr
+	}
+	if call, ok := expr.(*parser.Call); ok {
+		for _, arg := range call.Args {
+			if _, ok := arg.(*parser.MatrixSelector); ok {
+				return DuplicatesAcrossSteps
+			}
+		}
+	}
+	return DuplicatesPerStep
+}
+
+func (m DistributedExecutionOptimizer) makeSubQueries(current *parser.Expr, engines []api.RemoteEngine, duplicates DuplicateCheck) Coalesce {
 	remoteQueries := Coalesce{
 		Expressions: make(parser.Expressions, len(engines)),
+		Duplicates:  duplicates,
 	}
 	for i := 0; i < len(engines); i++ {
 		remoteQueries.Expressions[i] = &RemoteExecution{
